@@ -96,6 +96,16 @@ def shape_corpus():
     a(mk("la_early_mix", [rx("ab*"), rx(r"ab*c(?-u:\b)"), rx("abcd")]))
     a(mk("la_two", [rx(r"a+(?-u:\b)"), rx("a+$", prio=9)]))
     a(mk("la_skip", [rx("[a-z]+")], [skip(r" +(?-u:\b)"), skip(" +")]))
+    # look-ahead with nothing else continuing past it: a failed assertion must give an error
+    a(mk("la_kw_only", [rx(r"if(?-u:\b)")]))
+    a(mk("la_kw_paren", [rx(r"if(?-u:\b)"), tok("("), tok(" ")]))
+    a(mk("la_kw_two", [rx(r"if(?-u:\b)"), rx(r"in(?-u:\b)"), rx(r"[0-9]+(?-u:\b)")], [skip(" ")]))
+    a(mk("la_notb_only", [rx(r"-(?-u:\B)"), rx(r"\+(?-u:\B)\+?")]))
+    a(mk("la_endhalf_only", [rx(r"ab(?-u:\b{end-half})"), tok("-")]))
+    a(mk("la_wend_only", [rx(r"[a-z]+(?-u:\b{end})")], [skip(" ")]))
+    a(mk("la_mend_only", [rx(r"(?m:end$)"), tok("\n")]))
+    a(mk("la_end_only2", [rx(r"ab$")], [skip(" ")]))
+    a(mk("la_bytes_kw", [rx(rb"if(?-u:\b)"), rx(rb"[\x80-\xff]")], utf8=False))
     # --- fork shapes: 1, 2, 3+ edges, holes, LUTs, jump tables
     a(mk("fork1", [rx("ab")]))
     a(mk("fork2", [rx("a[bc]"), rx("a[de]x")]))
